@@ -2236,8 +2236,10 @@ class Exec:
             return [(st, 'ret', Enum('Ok', {0: UNIT})), (s2, 'ret', Enum('Err', {0: UNIT}))]
         if re.search(r' as Try>::branch$', c):
             v = args[0]
-            return R(Enum('Continue' if v.variant == 'Ok' else 'Break', dict(v.fields)))
+            return R(Enum('Continue' if v.variant in ('Ok', 'Some') else 'Break', dict(v.fields)))
         if re.search(r' as FromResidual<.*>>::from_residual$', c):
+            if re.match(r'^<Option<', c):
+                return R(Enum('None', {}))
             return R(Enum('Err', {0: UNIT}))
         if re.search(r'<impl \[u8\]>::chunks_exact$', c):
             sl, size = args
